@@ -104,6 +104,30 @@ fn check_calendar(index: u64, acc: &mut Acc) {
             return fail(acc, format!("first_after({d}) = {:?}, next listed date is {next:?}", cal.first_after(*d)));
         }
     }
+    // images of every listed date in other years (same month and day): mirrored around year 0 / 1, shifted by a
+    // century, by 400 years, by 2^k years - a calendar that folds, truncates or drops the sign of a year would
+    // report them (S-C10-g looks year y <= 0 up as 1 - y); and the ends of what a date can hold
+    for d in listed {
+        use chrono::Datelike;
+        for y in [1 - d.year(), -d.year(), d.year() - 100, d.year() + 100, d.year() - 400, d.year() + 400, d.year() - 256, d.year() + 256, d.year() + 65_536, d.year() - 65_536, d.year() % 100, d.year() - 2000] {
+            let Some(image) = NaiveDate::from_ymd_opt(y, d.month(), d.day()) else { continue };
+            let exp = listed.contains(&image);
+            tests += 1;
+            if cal.contains(image) != exp {
+                return fail(acc, format!("contains({image}) = {}, the data file says {exp} (image of the listed date {d})", cal.contains(image)));
+            }
+        }
+    }
+    for far in [NaiveDate::MIN, NaiveDate::MAX, NaiveDate::from_ymd_opt(0, 1, 1).unwrap(), NaiveDate::from_ymd_opt(-1, 12, 31).unwrap(), NaiveDate::from_ymd_opt(1, 1, 1).unwrap()] {
+        tests += 1;
+        if cal.contains(far) {
+            return fail(acc, format!("contains({far}) = true"));
+        }
+        let next = listed.range(far.succ_opt().unwrap_or(far)..).next().copied().filter(|_| far < NaiveDate::MAX);
+        if cal.first_after(far) != next {
+            return fail(acc, format!("first_after({far}) = {:?}, next listed date is {next:?}", cal.first_after(far)));
+        }
+    }
     acc.stats.cases += tests;
     acc.stats.units += tests;
     acc.stats.nontrivial_total += positives;
@@ -197,7 +221,7 @@ fn check_selector_all(index: u64, acc: &mut Acc) {
 fn extra(tier: Tier, _seed: u64) -> Vec<SubOutcome> {
     let n = Country::ALL.len() as u64 * 2;
     let mut v = vec![
-        par_enumerate("calendars", "exhaustive: all 115 countries x {public, school}: ordered iteration and count() equal the set listed in the data file (read by the harness' own parser), contains() on every date 1990-01-01..2085-12-31 and on every listed date equals membership, first_after of every date of that span and of every listed date is the next listed date; non-trivial = membership tests of listed dates", n, check_calendar),
+        par_enumerate("calendars", "exhaustive: all 115 countries x {public, school}: ordered iteration and count() equal the set listed in the data file (read by the harness' own parser), contains() on every date 1990-01-01..2085-12-31, on every listed date and on 12 images of every listed date in other years (mirrored around year 0, shifted by 100 / 256 / 400 / 65 536 years, reduced modulo 100) and at the first / last representable dates equals membership, first_after of every date of that span and of every listed date is the next listed date; non-trivial = membership tests of listed dates", n, check_calendar),
         par_enumerate("codes", "exhaustive: all countries (code parses back to the country, codes unique) and all 676 two-letter strings in 7 spelling variants (lower case, padded, mixed case, doubled, truncated) plus malformed strings: accepted iff exactly a listed code; non-trivial = strings derived from a valid code", 1, check_codes),
     ];
     let _ = tier;
